@@ -279,10 +279,13 @@ def run_case(desc):
                     items.append(dict(ctx, type='WRONG_VERSION_ATTACHED',
                                       label=[a, l], version=vid,
                                       new_versions=new_versions))
-                if not new_versions and vid != max(after_versions):
+                if not new_versions:
+                    # a run that records evolutions saves a version of its
+                    # own for them to be attached to
                     items.append(dict(ctx, type='WRONG_VERSION_ATTACHED',
                                       label=[a, l], version=vid,
-                                      new_versions=new_versions))
+                                      new_versions=new_versions,
+                                      no_version_saved=True))
             # completeness for the apps this run evolved
             for a in (apps_sel or apps):
                 have = [(x, l) for x, l, _v in after_rows if x == a]
